@@ -117,7 +117,7 @@ func c07Data(t *rapid.T, flip bool) map[string]string {
 	}
 	files := map[string]string{"t.json": jb.String()}
 	files["u.csv"] = "k,v,k\n1,a,2\n2,b,3\n" // duplicate header name
-	files["r.csv"] = "k,v\n1,a\n2\n3,c,d\n"   // ragged
+	files["r.csv"] = "k,v\n1,a\n2\n3,c,d\n"  // ragged
 	files["e.csv"] = ""
 	files["e.json"] = ""
 	files["x.lines"] = "one\ntwo\n\nthree"
@@ -185,8 +185,12 @@ func genC07(t *rapid.T) c07Case {
 		jt := rapid.SampledFrom([]string{"JOIN", "LEFT JOIN", "RIGHT JOIN", "OUTER JOIN", "LOOKUP JOIN"}).Draw(t, "jt")
 		sql = "SELECT t.a AS a, u.s AS s FROM t.json t " + jt + " t.json u ON " + strings.ReplaceAll(hostileExpr(t, 2, "on"), "t.l", "u.l") + " WHERE " + hostileExpr(t, 2, "w")
 	case "tvf":
-		I := func(l string) string { return rapid.SampledFrom([]string{"0", "1", "5", "100000", "(0 - 5)"}).Draw(t, l) }
-		unit := func(l string) string { return rapid.SampledFrom([]string{"SECONDS", "NANOSECONDS", "DAYS", "HOURS"}).Draw(t, l) }
+		I := func(l string) string {
+			return rapid.SampledFrom([]string{"0", "1", "5", "100000", "(0 - 5)"}).Draw(t, l)
+		}
+		unit := func(l string) string {
+			return rapid.SampledFrom([]string{"SECONDS", "NANOSECONDS", "DAYS", "HOURS"}).Draw(t, l)
+		}
 		sql = rapid.SampledFrom([]string{
 			"SELECT * FROM max_diff_watermark(source=>TABLE(t.json), max_diff=>INTERVAL %1 %U, time_field=>DESCRIPTOR(ts), resolution=>INTERVAL %2 %V) w",
 			"SELECT * FROM max_diff_watermark(source=>TABLE(t.json), max_diff=>INTERVAL %1 %U, time_field=>DESCRIPTOR(a)) w",
